@@ -1,10 +1,13 @@
 ------------------------------ MODULE IdlRpc ------------------------------
 (***************************************************************************)
-(* C05: what "call", "emit" and "set / get" mean for an IDL interface, as   *)
-(* a state machine on top of Idl's interface generator.                     *)
+(* C05: what "call", "emit" and "set / get" mean for an IDL package, as a   *)
+(* state machine on top of Idl's interface generator.                       *)
 (*                                                                          *)
-(* Phase "build": the interface is assembled (Idl!Add).  Freeze fixes it:   *)
-(* the properties hold their initial values, nobody is subscribed.          *)
+(* Phase "build": the interface Itf is assembled (Idl!Add).  Freeze fixes   *)
+(* the package: Itf plus the interfaces its actions refer to (Probe; Relay, *)
+(* which itself exchanges Probes; Itf itself), in one of two layouts of the *)
+(* IDL text; the properties hold their initial values, nobody is            *)
+(* subscribed, both sides hold references to their own objects.             *)
 (* Phase "run": operations of a client and of the service implementation:   *)
 (*    Call(i, args, ret)   the implementation must observe exactly args,    *)
 (*                         the caller must receive exactly ret              *)
@@ -14,17 +17,37 @@
 (*    Set(i, v)            the implementation's change callback observes v, *)
 (*                         the property holds v, subscribers receive v      *)
 (*    Get(i)               returns the value the property holds             *)
+(*    Use(side, h)         a call (ident) through a reference received     *)
+(*                         earlier: executed once, by the object it denotes *)
+(*    Via(h, g)            the client calls pass(g) on a received Relay:    *)
+(*                         the Relay observes g's object and returns it     *)
 (* hist records every operation with the observation the generated proxy    *)
 (* and stub must produce; the harness replays hist through code generated   *)
-(* by stub.GeneratePackage from IdlText(interface).                         *)
+(* by stub.GeneratePackage from IdlText.                                    *)
 (*                                                                          *)
 (* Values: Val(T, k), k = 1..3, three values per type (an extreme, another  *)
 (* one, the zero / empty one), built structurally; numbers outside TLC's    *)
 (* range are names (the harness owns the table, shared with Convert).       *)
+(*                                                                          *)
+(* Objects.  A value of an interface type is a reference.  Exchanging it is *)
+(* part of the machine: each side holds references under handles (cheld:    *)
+(* client, sheld: implementation); a reference is the object id that        *)
+(* travels (the service id is constant: one service).  The service's object *)
+(* table maps ids to hosted objects or to forwarders: a client-hosted       *)
+(* object (id >= ClientBase, the code's 2^31) that reaches a stub is        *)
+(* registered under a fresh service id that forwards to it                  *)
+(* (bus.NewClientObject + service.Add in InterfaceType.Unmarshal with       *)
+(* InterfaceTypeForStub); towards the client references travel unchanged.   *)
+(* Resolve follows the table to the object that executes a call.  Which     *)
+(* reference a sender puts into an object slot of a value is a parameter j  *)
+(* of the operation: the j-th most recently acquired reference of the       *)
+(* slot's interface, next slots the following ones.                         *)
 (***************************************************************************)
 EXTENDS Idl
 
-CONSTANTS MaxOps        \* operations per behaviour
+CONSTANTS MaxOps,       \* operations per behaviour
+          MaxPick,      \* choices of references per operation
+          Layouts       \* layouts of the IDL text explored ("aux-first", "aux-last")
 
 (***************************************************************************)
 (* Values                                                                   *)
@@ -38,30 +61,87 @@ ScVal == [i |-> <<"max32", "neg1", "zero">>,  I |-> <<"umax32", "one", "zero">>,
 \* dynamic values carry their own signature
 DynVal == << [sig |-> "i", v |-> "neg1"], [sig |-> "s", v |-> "s_utf8"], [sig |-> "b", v |-> "true"] >>
 
-RECURSIVE Val(_, _)
-Val(T, k) ==
-  CASE T.k = "sc" /\ T.c = "m" -> DynVal[k]
-    [] T.k = "sc"     -> ScVal[T.c][k]
-    [] T.k = "list"   -> IF k = 1 THEN <<Val(T.e, 1), Val(T.e, 2)>>
-                         ELSE IF k = 2 THEN <<Val(T.e, 2)>> ELSE <<>>
-    [] T.k = "map"    -> IF k = 1 THEN {<<Val(T.key, 1), Val(T.val, 1)>>, <<Val(T.key, 2), Val(T.val, 2)>>}
-                         ELSE IF k = 2 THEN {<<Val(T.key, 2), Val(T.val, 1)>>} ELSE {}
-    [] OTHER          -> [j \in DOMAIN T.ms |-> Val(T.ms[j], k)]      \* tuple, struct
+IsRef(T) == T.k = "obj" \/ (T.k = "sc" /\ T.c = "o")
+
+\* the object slots of the k-th value of a type, in the order of the value: the interface each
+\* slot demands ("obj": the generic reference)
+RECURSIVE Slots(_, _)
+Slots(T, k) ==
+  CASE T.k = "obj"  -> <<T.name>>
+    [] T.k = "sc"   -> IF T.c = "o" THEN <<"obj">> ELSE <<>>
+    [] T.k = "list" -> IF k = 1 THEN Slots(T.e, 1) \o Slots(T.e, 2)
+                       ELSE IF k = 2 THEN Slots(T.e, 2) ELSE <<>>
+    [] T.k = "map"  -> IF k = 1 THEN Slots(T.val, 1) \o Slots(T.val, 2)       \* keys are never references
+                       ELSE IF k = 2 THEN Slots(T.val, 1) ELSE <<>>
+    [] OTHER        -> Flat([j \in DOMAIN T.ms |-> Slots(T.ms[j], k)])
+\* slots of the members before the j-th
+Before(seqs, j) == Len(Flat(SubSeq(seqs, 1, j - 1)))
+
+\* the k-th value of T; an object slot is [slot |-> n], numbered from b + 1 in the order of Slots
+RECURSIVE ValS(_, _, _)
+ValS(T, k, b) ==
+  CASE IsRef(T)                -> [slot |-> b + 1]
+    [] T.k = "sc" /\ T.c = "m" -> DynVal[k]
+    [] T.k = "sc"              -> ScVal[T.c][k]
+    [] T.k = "list"   -> IF k = 1 THEN <<ValS(T.e, 1, b), ValS(T.e, 2, b + Len(Slots(T.e, 1)))>>
+                         ELSE IF k = 2 THEN <<ValS(T.e, 2, b)>> ELSE <<>>
+    [] T.k = "map"    -> IF k = 1 THEN {<<ValS(T.key, 1, 0), ValS(T.val, 1, b)>>,
+                                        <<ValS(T.key, 2, 0), ValS(T.val, 2, b + Len(Slots(T.val, 1)))>>}
+                         ELSE IF k = 2 THEN {<<ValS(T.key, 2, 0), ValS(T.val, 1, b)>>} ELSE {}
+    [] OTHER          -> LET ss == [j \in DOMAIN T.ms |-> Slots(T.ms[j], k)]      \* tuple, struct
+                         IN [j \in DOMAIN T.ms |-> ValS(T.ms[j], k, b + Before(ss, j))]
+Val(T, k) == ValS(T, k, 0)
 Ks == 1..3
 
-\* types the generated code can carry as values (no object reference, no unknown, no void)
+\* types the generated code can carry as values (no unknown, no void); a map key is a scalar
 RECURSIVE Carriable(_)
 Carriable(T) ==
-  CASE T.k = "sc"   -> T.c \in DOMAIN ScVal \cup {"m"}
+  CASE T.k = "obj"  -> TRUE
+    [] T.k = "sc"   -> T.c \in DOMAIN ScVal \cup {"m", "o"}
     [] T.k = "list" -> Carriable(T.e)
-    [] T.k = "map"  -> Carriable(T.key) /\ Carriable(T.val) /\ T.key.k = "sc" /\ T.key.c # "m"
+    [] T.k = "map"  -> Carriable(T.key) /\ Carriable(T.val) /\ T.key.k = "sc" /\ T.key.c \notin {"m", "o"}
     [] OTHER        -> \A j \in DOMAIN T.ms : Carriable(T.ms[j])
 
 \* the k-th argument tuple of an action: the parameters rotate through the three values
-Args(a, k) == [j \in DOMAIN a.ps |-> Val(a.ps[j].t, ((k + j) % 3) + 1)]
+ArgK(k, j) == ((k + j) % 3) + 1
+ArgSlotSeqs(a, k) == [j \in DOMAIN a.ps |-> Slots(a.ps[j].t, ArgK(k, j))]
+ArgSlots(a, k) == Flat(ArgSlotSeqs(a, k))
+Args(a, k) == [j \in DOMAIN a.ps |-> ValS(a.ps[j].t, ArgK(k, j), Before(ArgSlotSeqs(a, k), j))]
+
+\* the value indices that give different values: a reference has one value per choice j
+ArgKs(a) == IF a.ps # <<>> /\ \A j \in DOMAIN a.ps : IsRef(a.ps[j].t) THEN {1} ELSE Ks
+RetKs(a) == IF IsRef(a.ret) THEN {1} ELSE Ks
 
 (***************************************************************************)
-(* IDL text of the interface (one string per line)                          *)
+(* Objects of a behaviour: number |-> interface, host.  1 is the service's  *)
+(* object (the one the client's proxy of the service denotes); 2..5 are     *)
+(* created by the implementation in its service (Create<Itf>), 6 and 7 by   *)
+(* the client (Create<Itf> on Proxy().ProxyService).                        *)
+(***************************************************************************)
+ObjItf  == <<"Itf", "Itf", "Probe", "Probe", "Relay", "Probe", "Probe">>
+ObjHost == <<"svc", "svc", "svc",   "svc",   "svc",   "cli",   "cli">>
+Objs == DOMAIN ObjItf
+Root == 1
+ClientBase == 1000           \* object ids from here are the client's (the code: 2^31)
+FirstFresh == 8              \* handles and forwarder ids below are the initial ones
+FirstFwd == 100
+IsClientId(w) == w >= ClientBase
+SlotItf(n) == IF n = "obj" THEN "Probe" ELSE n     \* generic references carry Probes
+
+\* the interfaces of the package besides Itf ("Itf" is in it when Itf refers to itself)
+RECURSIVE TypeItfs(_)
+TypeItfs(T) ==
+  CASE T.k = "obj"  -> {T.name}
+    [] T.k = "sc"   -> IF T.c = "o" THEN {SlotItf("obj")} ELSE {}
+    [] T.k = "list" -> TypeItfs(T.e)
+    [] T.k = "map"  -> TypeItfs(T.key) \cup TypeItfs(T.val)
+    [] OTHER        -> UNION {TypeItfs(T.ms[j]) : j \in DOMAIN T.ms}
+Direct == UNION {TypeItfs(Tuple(ParamTypes(a))) \cup TypeItfs(a.ret) : a \in Actions}
+PkgItfs == Direct \cup (IF "Relay" \in Direct THEN {"Probe"} ELSE {})
+HasAux == PkgItfs \ {"Itf"} # {}
+
+(***************************************************************************)
+(* IDL text of the package (one string per line)                            *)
 (***************************************************************************)
 RECURSIVE SeqOfSet(_)
 SeqOfSet(S) == IF S = {} THEN <<>>
@@ -70,20 +150,18 @@ ChosenSeq == SeqOfSet(chosen)
 
 RECURSIVE JoinParams(_)
 JoinParams(ps) == IF ps = <<>> THEN ""
-                  ELSE ps[1].n \o ": " \o IdlName(ps[1].t) \o
+                  ELSE ps[1].n \o ": " \o IdlNameO(ps[1].t) \o
                        (IF Len(ps) = 1 THEN "" ELSE ", " \o JoinParams(Tail(ps)))
 ActionLine(a) ==
   CASE a.kind = "method" ->
          "fn " \o a.name \o "(" \o JoinParams(a.ps) \o ")" \o
-         (IF a.ret = Void THEN "" ELSE " -> " \o IdlName(a.ret)) \o " //uid:" \o ToString(a.id)
+         (IF a.ret = Void THEN "" ELSE " -> " \o IdlNameO(a.ret)) \o " //uid:" \o ToString(a.id)
     [] a.kind = "signal"   -> "sig " \o a.name \o "(" \o JoinParams(a.ps) \o ") //uid:" \o ToString(a.id)
     [] a.kind = "property" -> "prop " \o a.name \o "(" \o JoinParams(a.ps) \o ") //uid:" \o ToString(a.id)
 
 StructLines(S) == <<"struct " \o Str(S.name)>>
-                  \o [j \in DOMAIN S.ms |-> Str(S.fs[j]) \o ": " \o IdlName(S.ms[j])]
+                  \o [j \in DOMAIN S.ms |-> Str(S.fs[j]) \o ": " \o IdlNameO(S.ms[j])]
                   \o <<"end">>
-RECURSIVE FlatLines(_)
-FlatLines(ss) == IF ss = <<>> THEN <<>> ELSE Head(ss) \o FlatLines(Tail(ss))
 \* one declaration per struct name (Consistent holds outside the collision class)
 AllStructs == UNION {ActionStructs(a) : a \in Actions}
 StructNames == {s.name : s \in AllStructs}
@@ -92,66 +170,215 @@ DeclLines(names) == IF names = {} THEN <<>>
                     ELSE LET n == CHOOSE x \in names : TRUE
                              s == CHOOSE x \in AllStructs : x.name = n
                          IN StructLines(s) \o DeclLines(names \ {n})
-IdlText == <<"package verifgen", "interface Itf">>
-           \o [j \in DOMAIN ChosenSeq |-> ActionLine(ThePool[ChosenSeq[j]])]
-           \o <<"end">> \o DeclLines(StructNames)
+\* every interface whose objects are exchanged can tell which object executes: ident
+IdentUid == 900
+IdentLine == "fn ident() -> int32 //uid:" \o ToString(IdentUid)
+ProbeLines == <<"interface Probe", "fn ident() -> int32 //uid:100", "end">>
+RelayLines == <<"interface Relay", "fn ident() -> int32 //uid:100",
+                "fn pass(probe: Probe) -> Probe //uid:101", "end">>
+ItfLines == <<"interface Itf">>
+            \o [j \in DOMAIN ChosenSeq |-> ActionLine(ThePool[ChosenSeq[j]])]
+            \o (IF "Itf" \in PkgItfs THEN <<IdentLine>> ELSE <<>>)
+            \o <<"end">>
+IfIn(n, lines) == IF n \in PkgItfs THEN lines ELSE <<>>
+IdlTextOf(lay) ==
+  <<"package verifgen">>
+  \o (IF lay = "aux-last" THEN ItfLines \o IfIn("Relay", RelayLines) \o IfIn("Probe", ProbeLines)
+      ELSE IfIn("Probe", ProbeLines) \o IfIn("Relay", RelayLines) \o ItfLines)
+  \o DeclLines(StructNames)
 
 (***************************************************************************)
 (* The machine                                                              *)
 (***************************************************************************)
 VARIABLES phase,    \* "build" | "run"
-          store,    \* property pool index -> value index currently held (1..3)
+          layout,   \* "aux-first" | "aux-last": where the other interfaces stand in the IDL text
+          store,    \* property pool index -> [k: value index held (1..3), hs: the implementation's handles of its references]
           subs,     \* pool indices of the signals / properties subscribed to
+          cheld,    \* client:         handle -> reference (object id) held
+          sheld,    \* implementation: handle -> reference held
+          table,    \* the service's objects: id -> [obj: hosted object | 0, fwd: client id it forwards to | 0]
+          nexth,    \* next fresh handle
+          nextid,   \* next fresh service object id
+          execs,    \* object -> executions of ident / pass through references
           hist      \* operations with expected observations
-rvars == <<chosen, last, phase, store, subs, hist>>
+ovars == <<cheld, sheld, table, nexth, nextid>>
+rvars == <<chosen, last, phase, layout, store, subs, cheld, sheld, table, nexth, nextid, execs, hist>>
 
+IdlText == IdlTextOf(layout)
 Kind(i) == ThePool[i].kind
 InitK == 3          \* every property is initialised with its third value during activation
 
-RInit == IInit /\ phase = "build" /\ store = <<>> /\ subs = {} /\ hist = <<>>
+Resolve(tbl, w) == IF IsClientId(w) THEN w - ClientBase
+                   ELSE IF tbl[w].fwd = 0 THEN tbl[w].obj ELSE tbl[w].fwd - ClientBase
+
+RECURSIVE SortedDesc(_)
+SortedDesc(S) == IF S = {} THEN <<>>
+                 ELSE LET m == CHOOSE x \in S : \A y \in S : y <= x IN <<m>> \o SortedDesc(S \ {m})
+\* the handles of held references to objects of an interface, most recently acquired first
+Cands(held, tbl, n) == SortedDesc({h \in DOMAIN held : ObjItf[Resolve(tbl, held[h])] = SlotItf(n)})
+HasCands(held, tbl, slots) == \A s \in DOMAIN slots : Cands(held, tbl, slots[s]) # <<>>
+Picks(held, tbl, slots, j) ==
+  [s \in DOMAIN slots |-> LET c == Cands(held, tbl, slots[s]) IN c[((j + s - 2) % Len(c)) + 1]]
+
+\* a reference as it travels: hs the sender's handle, hg the receiver's new handle (0: nobody
+\* receives), hg2 a second receiver's (the subscriber of a property that is set), obj the object
+Leaf(hs, hg, o, n) == [hs |-> hs, hg |-> hg, hg2 |-> 0, obj |-> o, itf |-> n]
+
+\* client -> stub: a client-hosted object is registered under a fresh id that forwards to it
+C2S(picks, slots, ch, sh, tbl, nh, ni) ==
+  LET n == Len(slots)
+      w(s) == ch[picks[s]]
+      got(s) == IF IsClientId(w(s)) THEN ni + s - 1 ELSE w(s)
+      fresh == {s \in 1..n : IsClientId(w(s))}
+  IN [leaves |-> [s \in 1..n |-> Leaf(picks[s], nh + s - 1, Resolve(tbl, w(s)), slots[s])],
+      sh  |-> [h \in DOMAIN sh \cup {nh + s - 1 : s \in 1..n} |->
+                 IF h \in DOMAIN sh THEN sh[h] ELSE got(h - nh + 1)],
+      tbl |-> [x \in DOMAIN tbl \cup {ni + s - 1 : s \in fresh} |->
+                 IF x \in DOMAIN tbl THEN tbl[x] ELSE [obj |-> 0, fwd |-> w(x - ni + 1)]],
+      nh  |-> nh + n,
+      ni  |-> ni + n]
+\* stub -> client: the reference travels as it is
+S2C(picks, slots, sh, ch, tbl, nh) ==
+  LET n == Len(slots)
+  IN [leaves |-> [s \in 1..n |-> Leaf(picks[s], nh + s - 1, Resolve(tbl, sh[picks[s]]), slots[s])],
+      ch |-> [h \in DOMAIN ch \cup {nh + s - 1 : s \in 1..n} |->
+                IF h \in DOMAIN ch THEN ch[h] ELSE sh[picks[h - nh + 1]]],
+      nh |-> nh + n]
+\* nobody receives
+Unsent(picks, slots, sh, tbl) ==
+  [s \in DOMAIN slots |-> Leaf(picks[s], 0, Resolve(tbl, sh[picks[s]]), slots[s])]
+
+RInit == /\ IInit /\ phase = "build" /\ layout = "aux-first" /\ store = <<>> /\ subs = {} /\ hist = <<>>
+         /\ cheld = <<>> /\ sheld = <<>> /\ table = <<>> /\ nexth = FirstFresh /\ nextid = FirstFwd
+         /\ execs = [o \in Objs |-> 0]
 
 Build(i) == /\ phase = "build"
             /\ Add(i)
-            /\ UNCHANGED <<phase, store, subs, hist>>
-Freeze == /\ phase = "build" /\ chosen # {}
-          /\ phase' = "run"
-          /\ store' = [i \in {j \in chosen : Kind(j) = "property"} |-> InitK]
-          /\ UNCHANGED <<chosen, last, subs, hist>>
+            /\ UNCHANGED <<phase, layout, store, subs, hist, ovars, execs>>
+
+\* the references both sides hold at the start
+Table0 == [o \in {x \in Objs : ObjHost[x] = "svc" /\ (x = Root \/ ObjItf[x] \in PkgItfs)} |-> [obj |-> o, fwd |-> 0]]
+SHeld0 == [h \in {x \in Objs : ObjHost[x] = "svc" /\ ObjItf[x] \in PkgItfs} |-> h]
+CHeld0 == [h \in {x \in Objs : ObjItf[x] \in PkgItfs /\ (x = Root \/ ObjHost[x] = "cli")} |->
+             IF h = Root THEN Root ELSE ClientBase + h]
+Freeze(lay) ==
+  /\ phase = "build" /\ chosen # {}
+  /\ lay = "aux-last" => HasAux
+  /\ phase' = "run" /\ layout' = lay
+  /\ cheld' = CHeld0 /\ sheld' = SHeld0 /\ table' = Table0
+  /\ store' = [i \in {j \in chosen : Kind(j) = "property"} |->
+                 [k |-> InitK, hs |-> Picks(SHeld0, Table0, ArgSlots(ThePool[i], InitK), 1)]]
+  /\ UNCHANGED <<chosen, last, subs, hist, nexth, nextid, execs>>
 
 Op(rec) == /\ phase = "run" /\ Len(hist) < MaxOps
            /\ hist' = Append(hist, rec)
-           /\ UNCHANGED <<chosen, last, phase>>
-\* every record has the same fields: op, id, k (argument / payload / value index),
-\* r (return value index, 0: none), deliver (the subscriber must receive it)
-Rec(op, i, k, r, deliver) == [op |-> op, id |-> ThePool[i].id, idx |-> i, k |-> k, r |-> r, deliver |-> deliver]
+           /\ UNCHANGED <<chosen, last, phase, layout>>
+\* every record has the same fields: op, id, idx, k (argument / payload / value index), r (return
+\* value index, 0: none), deliver (the subscriber must receive it), j (choice of references),
+\* side / h / g (use, via), objs / robjs (the references inside the arguments / the result),
+\* exec (the object that executes a call through a reference), dev (named deviation of the
+\* pinned code that the operation runs into, "": none)
+Rec(op, i, k, r, deliver, j, x) ==
+  [op |-> op, id |-> IF i = 0 THEN 0 ELSE ThePool[i].id, idx |-> i, k |-> k, r |-> r, deliver |-> deliver,
+   j |-> j, side |-> x.side, h |-> x.h, g |-> x.g, objs |-> x.objs, robjs |-> x.robjs,
+   exec |-> x.exec, dev |-> x.dev]
+NoX == [side |-> "", h |-> 0, g |-> 0, objs |-> <<>>, robjs |-> <<>>, exec |-> 0, dev |-> ""]
 
-Call(i, k, r) == /\ Kind(i) = "method"
-                 /\ (ThePool[i].ret = Void) <=> (r = 0)
-                 /\ Op(Rec("call", i, k, r, FALSE))
-                 /\ UNCHANGED <<store, subs>>
+\* the stub asks the object it returns for its description while it still executes the call:
+\* an object that returns itself waits for itself (InterfaceType.Marshal in the stub method)
+ReturnDev(rleaves) == IF \E s \in DOMAIN rleaves : rleaves[s].obj = Root THEN "returns-itself" ELSE ""
+
+Call(i, k, r, j) ==
+  LET a  == ThePool[i]
+      as == ArgSlots(a, k)
+      rs == IF r = 0 THEN <<>> ELSE Slots(a.ret, r)
+  IN /\ Kind(i) = "method"
+     /\ (a.ret = Void) <=> (r = 0)
+     /\ k \in ArgKs(a) /\ (r = 0 \/ r \in RetKs(a))
+     /\ (j = 0) <=> (as = <<>> /\ rs = <<>>)
+     /\ HasCands(cheld, table, as)
+     /\ LET x1 == C2S(Picks(cheld, table, as, j), as, cheld, sheld, table, nexth, nextid)
+            x2 == S2C(Picks(x1.sh, x1.tbl, rs, j), rs, x1.sh, cheld, x1.tbl, x1.nh)
+        IN /\ Op(Rec("call", i, k, r, FALSE, j,
+                     [NoX EXCEPT !.objs = x1.leaves, !.robjs = x2.leaves, !.dev = ReturnDev(x2.leaves)]))
+           /\ sheld' = x1.sh /\ table' = x1.tbl /\ nextid' = x1.ni
+           /\ cheld' = x2.ch /\ nexth' = x2.nh
+     /\ UNCHANGED <<store, subs, execs>>
 Subscribe(i) == /\ Kind(i) \in {"signal", "property"} /\ i \notin subs
-                /\ Op(Rec("sub", i, 0, 0, FALSE))
-                /\ subs' = subs \cup {i} /\ UNCHANGED store
+                /\ Op(Rec("sub", i, 0, 0, FALSE, 0, NoX))
+                /\ subs' = subs \cup {i} /\ UNCHANGED <<store, ovars, execs>>
 Unsubscribe(i) == /\ i \in subs
-                  /\ Op(Rec("unsub", i, 0, 0, FALSE))
-                  /\ subs' = subs \ {i} /\ UNCHANGED store
-Emit(i, k) == /\ Kind(i) = "signal"
-              /\ Op(Rec("emit", i, k, 0, i \in subs))
-              /\ UNCHANGED <<store, subs>>
-Set(i, k) == /\ Kind(i) = "property"
-             /\ Op(Rec("set", i, k, 0, i \in subs))
-             /\ store' = [store EXCEPT ![i] = k] /\ UNCHANGED subs
-Get(i) == /\ Kind(i) = "property"
-          /\ Op(Rec("get", i, 0, store[i], FALSE))
-          /\ UNCHANGED <<store, subs>>
+                  /\ Op(Rec("unsub", i, 0, 0, FALSE, 0, NoX))
+                  /\ subs' = subs \ {i} /\ UNCHANGED <<store, ovars, execs>>
+Emit(i, k, j) ==
+  LET ss == ArgSlots(ThePool[i], k)
+      ps == Picks(sheld, table, ss, j)
+  IN /\ Kind(i) = "signal" /\ k \in ArgKs(ThePool[i])
+     /\ (j = 0) <=> (ss = <<>>)
+     /\ IF i \in subs
+        THEN LET x == S2C(ps, ss, sheld, cheld, table, nexth)
+             IN /\ Op(Rec("emit", i, k, 0, TRUE, j, [NoX EXCEPT !.objs = x.leaves]))
+                /\ cheld' = x.ch /\ nexth' = x.nh
+        ELSE /\ Op(Rec("emit", i, k, 0, FALSE, j, [NoX EXCEPT !.objs = Unsent(ps, ss, sheld, table)]))
+             /\ UNCHANGED <<cheld, nexth>>
+     /\ UNCHANGED <<store, subs, sheld, table, nextid, execs>>
+Set(i, k, j) ==
+  LET ss == ArgSlots(ThePool[i], k)
+  IN /\ Kind(i) = "property" /\ k \in ArgKs(ThePool[i])
+     /\ (j = 0) <=> (ss = <<>>)
+     /\ HasCands(cheld, table, ss)
+     /\ LET x1 == C2S(Picks(cheld, table, ss, j), ss, cheld, sheld, table, nexth, nextid)
+            ih == [s \in DOMAIN ss |-> x1.leaves[s].hg]            \* what the property holds now
+            x2 == S2C(ih, ss, x1.sh, cheld, x1.tbl, x1.nh)
+            lv == [s \in DOMAIN ss |-> [x1.leaves[s] EXCEPT !.hg2 = IF i \in subs THEN x2.leaves[s].hg ELSE 0]]
+        IN /\ Op(Rec("set", i, k, 0, i \in subs, j, [NoX EXCEPT !.objs = lv]))
+           /\ store' = [store EXCEPT ![i] = [k |-> k, hs |-> ih]]
+           /\ sheld' = x1.sh /\ table' = x1.tbl /\ nextid' = x1.ni
+           /\ IF i \in subs THEN cheld' = x2.ch /\ nexth' = x2.nh
+                            ELSE cheld' = cheld /\ nexth' = x1.nh
+     /\ UNCHANGED <<subs, execs>>
+Get(i) ==
+  /\ Kind(i) = "property"
+  /\ LET ss == ArgSlots(ThePool[i], store[i].k)
+         x  == S2C(store[i].hs, ss, sheld, cheld, table, nexth)
+     IN /\ Op(Rec("get", i, 0, store[i].k, FALSE, 0, [NoX EXCEPT !.robjs = x.leaves]))
+        /\ cheld' = x.ch /\ nexth' = x.nh
+  /\ UNCHANGED <<store, subs, sheld, table, nextid, execs>>
+\* a call through a reference received earlier
+Use(side, h) ==
+  LET held == IF side = "c" THEN cheld ELSE sheld
+  IN /\ phase = "run" /\ h \in DOMAIN held /\ h >= FirstFresh
+     /\ LET o == Resolve(table, held[h])
+        IN /\ Op(Rec("use", 0, 0, 0, FALSE, 0,
+                     [NoX EXCEPT !.side = side, !.h = h, !.exec = o, !.objs = <<Leaf(h, 0, o, ObjItf[o])>>]))
+           /\ execs' = [execs EXCEPT ![o] = @ + 1]
+     /\ UNCHANGED <<store, subs, ovars>>
+\* the client calls pass(g) on a received Relay hosted by the service
+Via(h, g) ==
+  /\ phase = "run" /\ h \in DOMAIN cheld /\ g \in DOMAIN cheld
+  /\ LET o == Resolve(table, cheld[h])
+     IN /\ ObjItf[o] = "Relay" /\ ObjHost[o] = "svc"
+        /\ ObjItf[Resolve(table, cheld[g])] = "Probe"
+        /\ LET x1 == C2S(<<g>>, <<"Probe">>, cheld, sheld, table, nexth, nextid)
+               x2 == S2C(<<x1.leaves[1].hg>>, <<"Probe">>, x1.sh, cheld, x1.tbl, x1.nh)
+           IN /\ Op(Rec("via", 0, 0, 0, FALSE, 0,
+                        [NoX EXCEPT !.side = "c", !.h = h, !.g = g, !.exec = o,
+                                    !.objs = x1.leaves, !.robjs = x2.leaves]))
+              /\ sheld' = x1.sh /\ table' = x1.tbl /\ nextid' = x1.ni
+              /\ cheld' = x2.ch /\ nexth' = x2.nh
+        /\ execs' = [execs EXCEPT ![o] = @ + 1]
+  /\ UNCHANGED <<store, subs>>
 
 RNext == \/ \E i \in DOMAIN ThePool : Build(i)
-         \/ Freeze
-         \/ \E i \in chosen :
-              \/ \E k \in Ks, r \in 0..3 : Call(i, k, r)
-              \/ Subscribe(i) \/ Unsubscribe(i)
-              \/ \E k \in Ks : Emit(i, k) \/ Set(i, k)
-              \/ Get(i)
+         \/ \E lay \in Layouts : Freeze(lay)
+         \/ /\ phase = "run" /\ Len(hist) < MaxOps
+            /\ \/ \E i \in chosen :
+                    \/ \E k \in Ks, r \in 0..3, j \in 0..MaxPick : Call(i, k, r, j)
+                    \/ Subscribe(i) \/ Unsubscribe(i)
+                    \/ \E k \in Ks, j \in 0..MaxPick : Emit(i, k, j) \/ Set(i, k, j)
+                    \/ Get(i)
+               \/ \E side \in {"c", "s"}, h \in DOMAIN cheld \cup DOMAIN sheld : Use(side, h)
+               \/ \E h, g \in DOMAIN cheld : Via(h, g)
 RSpec == RInit /\ [][RNext]_rvars
 
 (***************************************************************************)
@@ -159,10 +386,16 @@ RSpec == RInit /\ [][RNext]_rvars
 (* reading of the history                                                   *)
 (***************************************************************************)
 \* a get returns the value of the latest set before it, else the initial value
+LastSet(n) == LET sets == {m \in 1..(n - 1) : hist[m].op = "set" /\ hist[m].idx = hist[n].idx}
+              IN IF sets = {} THEN 0 ELSE CHOOSE m \in sets : \A m2 \in sets : m2 <= m
 GetSeesLastSet ==
   \A n \in DOMAIN hist : hist[n].op = "get" =>
-     LET sets == {m \in 1..(n - 1) : hist[m].op = "set" /\ hist[m].idx = hist[n].idx}
-     IN hist[n].r = IF sets = {} THEN InitK ELSE hist[CHOOSE m \in sets : \A m2 \in sets : m2 <= m].k
+     hist[n].r = IF LastSet(n) = 0 THEN InitK ELSE hist[LastSet(n)].k
+\* ... and its references denote the objects of the references that were set
+GetDenotesLastSet ==
+  \A n \in DOMAIN hist : (hist[n].op = "get" /\ LastSet(n) # 0) =>
+     [s \in DOMAIN hist[n].robjs |-> hist[n].robjs[s].obj]
+       = [s \in DOMAIN hist[LastSet(n)].objs |-> hist[LastSet(n)].objs[s].obj]
 \* an event is delivered iff more subscriptions than cancellations precede it
 DeliveredIffSubscribed ==
   \A n \in DOMAIN hist : hist[n].op \in {"emit", "set"} =>
@@ -173,7 +406,50 @@ SubsConsistent == subs \subseteq chosen /\ \A i \in subs : Kind(i) # "method"
 \* only values the generated code can carry are exchanged
 OnlyCarriable == \A a \in Actions : (\A j \in DOMAIN a.ps : Carriable(a.ps[j].t))
                                     /\ (a.ret = Void \/ Carriable(a.ret))
+
+\* every object reference received denotes the object sent, and an object of the interface the
+\* slot demands: who sent / received the references of a record
+ArgsFromClient(e) == e.op \in {"call", "set", "via"}
+RefsDenoteSent ==
+  \A n \in DOMAIN hist :
+    LET e == hist[n]
+        sender == IF e.op = "use" THEN (IF e.side = "c" THEN cheld ELSE sheld)
+                  ELSE IF ArgsFromClient(e) THEN cheld ELSE sheld
+        receiver == IF ArgsFromClient(e) THEN sheld ELSE cheld
+    IN /\ \A s \in DOMAIN e.objs :
+            LET l == e.objs[s]
+            IN /\ Resolve(table, sender[l.hs]) = l.obj
+               /\ l.hg # 0 => Resolve(table, receiver[l.hg]) = l.obj
+               /\ l.hg2 # 0 => Resolve(table, cheld[l.hg2]) = l.obj
+               /\ ObjItf[l.obj] = SlotItf(l.itf)
+       /\ \A s \in DOMAIN e.robjs :
+            LET l == e.robjs[s]
+            IN /\ Resolve(table, sheld[l.hs]) = l.obj
+               /\ Resolve(table, cheld[l.hg]) = l.obj
+               /\ ObjItf[l.obj] = SlotItf(l.itf)
+\* a call through a received reference is executed by the object it denotes, exactly once
+ExecutedOnce ==
+  /\ \A o \in Objs : execs[o] = Cardinality({n \in DOMAIN hist : hist[n].exec = o})
+  /\ \A n \in DOMAIN hist : hist[n].op = "use" => hist[n].exec = hist[n].objs[1].obj
+  /\ \A n \in DOMAIN hist : hist[n].op = "via" =>
+        /\ hist[n].objs[1].obj = hist[n].robjs[1].obj         \* the Relay returns what it was given
+        /\ ObjItf[hist[n].exec] = "Relay"
+\* the implementation never holds a client id: what it calls goes through its own service
+ImplHoldsServiceIds == \A h \in DOMAIN sheld : ~IsClientId(sheld[h]) /\ sheld[h] \in DOMAIN table
+ClientRefsResolvable == \A h \in DOMAIN cheld : IsClientId(cheld[h]) \/ cheld[h] \in DOMAIN table
+ForwardersSound ==
+  \A x \in DOMAIN table :
+    IF table[x].fwd = 0 THEN table[x].obj \in Objs /\ ObjHost[table[x].obj] = "svc" /\ x = table[x].obj
+    ELSE /\ table[x].obj = 0 /\ x >= FirstFwd /\ x < nextid
+         /\ IsClientId(table[x].fwd) /\ ObjHost[table[x].fwd - ClientBase] = "cli"
+\* handles are never reused, on either side
+HandlesFresh == \A h \in DOMAIN cheld \cup DOMAIN sheld : h < nexth
+\* Idl's theorems about the interface: it changes in the build phase only
+ItfTheorems == phase = "build" =>
+                 (UniqueIds /\ SigsInGrammar /\ TupleShaped /\ Consistent /\ AtMostOneSpecial /\ OnlyCarriable)
 RTypeOK == /\ phase \in {"build", "run"}
+           /\ layout \in {"aux-first", "aux-last"}
            /\ Len(hist) <= MaxOps
-           /\ phase = "build" => hist = <<>> /\ subs = {}
+           /\ phase = "build" => hist = <<>> /\ subs = {} /\ cheld = <<>> /\ sheld = <<>>
+           /\ layout = "aux-last" => HasAux
 =============================================================================
